@@ -43,6 +43,7 @@
 extern "C" void c03_sched_enable(std::uint64_t seed) __attribute__((weak));
 extern "C" void c03_sched_disable() __attribute__((weak));
 extern "C" void c03_sched_hold_nth(int n, unsigned beforeUs, unsigned afterUs) __attribute__((weak));
+extern "C" void c03_sched_hold_lock_nth(int n, unsigned beforeUs) __attribute__((weak));
 
 namespace net = iora::network;
 using fakeeng::FakeEngine;
@@ -164,6 +165,11 @@ struct SchedPlan
                              //    handler's unlock of the sync mutex is held back / followed by a pause, so the owner
                              //    queues on the mutex and sets the fence before the woken caller can run
                              // 2: the owner is released right AFTER the victim's onConnect returned
+                             // 3: the owner is released while the victim is INSIDE the engine->close(sid) call of its
+                             //    timeout path; the fake's close() keeps the caller there (bounded) until the teardown
+                             //    has returned or cannot proceed
+                             // 4: the owner is released when that close(sid) returns; the caller is held back right
+                             //    before it re-locks the sync mutex (interposed pthread_mutex_lock)
   std::size_t victim = 0;
   unsigned ownerDelayUs = 0; // owner's reaction delay after its release
   unsigned holdBeforeUs = 0, holdAfterUs = 0;
@@ -199,7 +205,8 @@ std::string describe(const SchedPlan &p)
   {
     d << (p.dropOwner ? " teardown=drop-last-owner" : " teardown=stop()");
     if (p.trigger == 0) d << "@" << p.stopAtUs << "us";
-    else d << (p.trigger == 1 ? " released-before" : " released-after") << "-onConnect(#" << p.victim << ")+" << p.ownerDelayUs << "us";
+    else if (p.trigger <= 2) d << (p.trigger == 1 ? " released-before" : " released-after") << "-onConnect(#" << p.victim << ")+" << p.ownerDelayUs << "us";
+    else d << (p.trigger == 3 ? " while-inside" : " right-after") << "-timeout-close(#" << p.victim << ")+" << p.ownerDelayUs << "us";
     if (p.trigger == 1) d << " hold#" << p.holdNth << "=" << p.holdBeforeUs << "/" << p.holdAfterUs << "us";
   }
   for (std::size_t i = 0; i < p.callers.size(); ++i)
@@ -262,6 +269,7 @@ struct SchedWorld
   std::vector<CallerState> cs;
   std::atomic<bool> stopIssued{false};
   std::atomic<bool> ownerGo{false};   // teardown prop: releases the owner thread
+  std::atomic<bool> ownerDone{false}; // teardown prop: the owner's reset()/stop() has returned
   std::atomic<unsigned> entered{0};   // callers that are inside engine->connect() (or were refused there)
   std::atomic<unsigned> nPlacedInWindow{0}, nOk{0}, nTimeout{0}, nEngineErr{0}, nCancelled{0}, nShutdown{0},
     nSyncRefused{0}, nLateConnectAfterTimeout{0};
@@ -285,7 +293,7 @@ struct SchedWorld
     {
       auto before = eng->session(sid);
       bool isVictim = false;
-      if (plan.trigger != 0)
+      if (plan.trigger == 1 || plan.trigger == 2)
       {
         std::lock_guard<std::mutex> lk(mu);
         auto it = sidInfo.find(sid);
@@ -424,6 +432,19 @@ void installHooks(SchedWorld &w)
       w.io.post([&w, sid] { w.eng->processAppClose(sid); }, std::chrono::microseconds(a.closeDelayUs));
     else
       st.afterReturn.push_back([&w, sid] { w.io.post([&w, sid] { w.eng->processAppClose(sid); }); });
+    // ---- teardown placed at the timeout path's close(sid) (prop `teardown`)
+    if ((w.plan.trigger == 3 || w.plan.trigger == 4) && tlCaller == w.plan.victim && !w.ownerGo.load())
+    {
+      w.ownerGo.store(true);
+      if (w.plan.trigger == 3)
+      {
+        // stay inside engine->close(sid): a correct teardown has to wait for this call (it is still
+        // counted), so the wait is bounded; a teardown that does not wait returns within it
+        for (int i = 0; i < 60 && !w.ownerDone.load(); ++i) std::this_thread::sleep_for(std::chrono::microseconds(50));
+      }
+      else if (c03_sched_hold_lock_nth)
+        c03_sched_hold_lock_nth(1, 2000); // the next lock of this thread is connectSync's re-lock
+    }
   };
   h.inStop = [&w]
   {
@@ -810,8 +831,17 @@ void runTeardown(pbt::Case &c, const SchedPlan &plan)
       while (Clock::now() < until) {}
     }
     w.stopIssued.store(true);
+    auto td0 = Clock::now();
     if (plan.dropOwner) owner.reset(); // ~Transport: fence, engine stop, waits the parked callers out
     else raw->stop();
+    w.ownerDone.store(true);
+    auto tdEl = Clock::now() - td0;
+    unsigned maxT = 0;
+    for (auto &cp : plan.callers) maxT = std::max(maxT, cp.attempts[0].timeoutMs);
+    if (tdEl > std::chrono::milliseconds(maxT) + kSlack)
+      w.fail("C04/teardown-returned-late", pbt::Fmt() << (plan.dropOwner ? "~Transport" : "stop()") << " returned after "
+                                                      << std::chrono::duration_cast<std::chrono::milliseconds>(tdEl).count() << " ms",
+             true);
   }
   for (auto &th : threads) th.join();
   w.io.drain();
@@ -875,10 +905,15 @@ void runTeardown(pbt::Case &c, const SchedPlan &plan)
     return;
   }
   c.label(plan.dropOwner ? "teardown: last owner dropped" : "teardown: stop()");
-  c.label(plan.trigger == 0 ? "teardown at a generated time" : plan.trigger == 1 ? "owner released before the victim's onConnect (held unlock)" : "owner released after the victim's onConnect");
+  c.label(plan.trigger == 0   ? "teardown at a generated time"
+          : plan.trigger == 1 ? "owner released before the victim's onConnect (held unlock)"
+          : plan.trigger == 2 ? "owner released after the victim's onConnect"
+          : plan.trigger == 3 ? "owner released while the victim is inside its timeout path's close(sid)"
+                              : "owner released right after the victim's close(sid), caller held before the re-lock");
   if (plan.trigger != 0)
   {
-    c.label(released ? "victim's onConnect fired before the teardown" : "victim's onConnect did not fire in time");
+    if (plan.trigger <= 2) c.label(released ? "victim's onConnect fired before the teardown" : "victim's onConnect did not fire in time");
+    else c.label(released ? "victim reached its timeout path's close(sid) before the teardown" : "victim did not reach close(sid) in time");
     int v = verdict[plan.victim];
     c.label(v == 1 ? "victim returned ok" : v == 2 ? "victim returned ShuttingDown" : "victim returned another error");
   }
@@ -914,6 +949,16 @@ SchedPlan genTeardown(pbt::Src &src)
   p.stopAtUs = static_cast<unsigned>(src.range(0, 2000));
   p.trigger = connecting.empty() ? 0 : static_cast<int>(src.weighted({1, 4, 3}));
   if (p.trigger) p.victim = connecting[static_cast<std::size_t>(src.range(0, static_cast<std::int64_t>(connecting.size()) - 1))];
+  if (src.coin(1, 3))
+  {
+    // teardown placed at a victim's timeout path: the victim's attempt times out (nothing happens before,
+    // or the outcome is itself placed inside / after that close call)
+    p.trigger = src.coin() ? 3 : 4;
+    p.victim = static_cast<std::size_t>(src.range(0, static_cast<std::int64_t>(n) - 1));
+    Attempt &a = p.callers[p.victim].attempts[0];
+    a.timeoutMs = src.oneOf<unsigned>({0, 1, 5});
+    if (a.outcome != OutHole) a.phase = src.coin() ? PhInClose : PhAfterCloseCall;
+  }
   p.ownerDelayUs = static_cast<unsigned>(src.range(0, 200));
   p.holdBeforeUs = src.oneOf<unsigned>({0, 100, 400});
   p.holdAfterUs = src.oneOf<unsigned>({0, 100, 400});
@@ -1584,6 +1629,37 @@ PBT_REGRESSION(teardown_right_after_onconnect)
   p.ownerDelayUs = 30;
   p.holdBeforeUs = 400;
   p.holdAfterUs = 400;
+  runTeardown(c, p);
+}
+
+PBT_REGRESSION(teardown_while_inside_timeout_close)
+{
+  // the caller timed out and is INSIDE engine->close(sid) (no transport lock held) when the owner drops the last
+  // reference: ~Transport must wait for that call - it still touches the sync mutex and Impl afterwards
+  SchedPlan p;
+  CallerPlan cp;
+  Attempt a;
+  a.timeoutMs = 0;
+  a.outcome = OutHole;
+  cp.attempts.push_back(a);
+  p.callers.push_back(cp);
+  p.dropOwner = true;
+  p.trigger = 3;
+  p.victim = 0;
+  runTeardown(c, p);
+}
+PBT_REGRESSION(teardown_between_timeout_close_and_relock)
+{
+  SchedPlan p;
+  CallerPlan cp;
+  Attempt a;
+  a.timeoutMs = 1;
+  a.outcome = OutHole;
+  cp.attempts.push_back(a);
+  p.callers.push_back(cp);
+  p.dropOwner = true;
+  p.trigger = 4;
+  p.victim = 0;
   runTeardown(c, p);
 }
 
